@@ -634,7 +634,7 @@ func TestVerifC22Clean(t *testing.T) {
 	env := c22NewEnv(t)
 	evs := c22kAlphabet()
 
-	depth := vlib.Pick(r, 4, 7)
+	depth := vlib.Pick(r, 4, 16)                                        // thorough: until the state space is closed (level 10)
 	if v := strings.TrimSpace(os.Getenv("VERIF_C22K_DEPTH")); v != "" { // tuning aid only; never set by run.sh
 		fmt.Sscanf(v, "%d", &depth)
 	}
